@@ -68,22 +68,22 @@ def check_forward(res, el, net, ctx):
     G = sut("Network.G", lambda: net.G)
     if set(G.nodes()) != set(range(N)):
         res.violate("vertex-set-is-not-one-per-joint-degree-entry", missing=sorted(set(range(N)) - set(G.nodes()))[:8],
-                    extra=[repr(x) for x in set(G.nodes()) - set(range(N))][:8], N=N, **ctx); return False
+                    extra=[repr(x) for x in set(G.nodes()) - set(range(N))][:8], N=N, ctx=ctx); return False
     for v in range(N):
         if G.nodes[v].get(NN.JOINT_DEGREE) != jds[v]:
-            res.violate("vertex-annotation-differs", vertex=v, got=repr(G.nodes[v]), want=jds[v], **ctx); return False
+            res.violate("vertex-annotation-differs", vertex=v, got=repr(G.nodes[v]), want=jds[v], ctx=ctx); return False
     rows = defaultdict(list)
     for e, t, i in zip(edges, tops, ids):
         rows[gen.upair(e)].append((t, i))
     got = {gen.upair(e) for e in G.edges()}
     if got != set(rows):
-        res.violate("edge-set-differs-from-pairs-in-edge-list", missing=sorted(set(rows) - got)[:6], extra=sorted(got - set(rows))[:6], **ctx); return False
+        res.violate("edge-set-differs-from-pairs-in-edge-list", missing=sorted(set(rows) - got)[:6], extra=sorted(got - set(rows))[:6], ctx=ctx); return False
     for p, r in rows.items():
         d = G.edges[p]
         if len(r) == 1:
             res.count("unique_pair_attrs_checked")
             if d.get(NN.TOPOLOGY) != r[0][0] or d.get(NN.MOTIF_IDS) != r[0][1]:
-                res.violate("edge-annotation-differs-from-its-row", pair=p, got=repr(dict(d)), want=r[0], **ctx); return False
+                res.violate("edge-annotation-differs-from-its-row", pair=p, got=repr(dict(d)), want=r[0], ctx=ctx); return False
     return True
 
 
@@ -93,13 +93,13 @@ def check_reverse(res, net_snapshot, el2, N, ctx):
     e2, t2, i2, j2 = el_columns(el2)
     want_jds = [nodes[v].get(NN.JOINT_DEGREE) for v in range(N)]
     if j2 != want_jds:
-        res.violate("reverse-joint-degrees-differ", got=repr(j2)[:200], want=repr(want_jds)[:200], **ctx); return False
+        res.violate("reverse-joint-degrees-differ", got=repr(j2)[:200], want=repr(want_jds)[:200], ctx=ctx); return False
     if not (len(e2) == len(t2) == len(i2)):
-        res.violate("reverse-columns-have-different-lengths", lens=[len(e2), len(t2), len(i2)], **ctx); return False
+        res.violate("reverse-columns-have-different-lengths", lens=[len(e2), len(t2), len(i2)], ctx=ctx); return False
     got = Counter((gen.upair(e), t, i) for e, t, i in zip(e2, t2, i2))
     want = Counter((gen.upair(p), d.get(NN.TOPOLOGY), d.get(NN.MOTIF_IDS)) for p, d in edges.items())
     if got != want:
-        res.violate("reverse-annotated-edge-set-differs", missing=list((want - got))[:4], extra=list((got - want))[:4], **ctx); return False
+        res.violate("reverse-annotated-edge-set-differs", missing=list((want - got))[:4], extra=list((got - want))[:4], ctx=ctx); return False
     return True
 
 
@@ -123,7 +123,7 @@ def run_case(case):
     net = sut("EdgeListToNetwork.convert", gcmpy.EdgeListToNetwork.convert, el)
     res.count("forward_conversions")
     if copy.deepcopy(el_columns(el)) != cols0:
-        res.violate("forward-conversion-mutated-its-input", **ctx)
+        res.violate("forward-conversion-mutated-its-input", ctx=ctx)
     elif check_forward(res, el, net, ctx):
         # reverse, on a monitored graph
         mg = MonitoredGraph(net.G)
@@ -133,19 +133,19 @@ def run_case(case):
         res.count("reverse_conversions")
         res.count("input_graph_mutation_events", len(mg.events))
         if mg.events or not same_snapshot(snap, snapshot(mg)):
-            res.violate("reverse-conversion-mutated-its-input", events=mg.events[:5], **ctx)
+            res.violate("reverse-conversion-mutated-its-input", events=mg.events[:5], ctx=ctx)
         elif check_reverse(res, snap, el2, N, ctx):
             # round trips
             net2 = sut("EdgeListToNetwork.convert(round trip)", gcmpy.EdgeListToNetwork.convert, el2)
             res.count("round_trips")
             if not same_snapshot(snapshot(net2.G), snap):
-                res.violate("network-round-trip-is-not-the-identity", **ctx)
+                res.violate("network-round-trip-is-not-the-identity", ctx=ctx)
             elif not rep:
                 res.count("exact_round_trip_checked")
                 a = Counter((gen.upair(e), t, i) for e, t, i in zip(*cols0[:3]))
                 b = Counter((gen.upair(e), t, i) for e, t, i in zip(*el_columns(el2)[:3]))
                 if a != b or el_columns(el2)[3] != cols0[3]:
-                    res.violate("edge-list-round-trip-is-not-the-identity", missing=list(a - b)[:4], extra=list(b - a)[:4], **ctx)
+                    res.violate("edge-list-round-trip-is-not-the-identity", missing=list(a - b)[:4], extra=list(b - a)[:4], ctx=ctx)
     res.nontrivial = (zero or rep or loop) and len(cols0[0]) >= 2
     res.digest = digest(cols0)
     res.sample = {"jds": jds[:30], "edge_list": cols0[0][:30], "topologies": cols0[1][:30], "motif_id": cols0[2][:30]}
